@@ -1,4 +1,4 @@
-import TriompheModel.Model.Ops
+import TriompheModel.Proofs.HistVal
 /-!
 # C15 — uninitialised construction never destroys or exposes what was not written
 -/
@@ -66,6 +66,27 @@ theorem C15_deprecated_write_panics_when_shared (s : State) (src i : Nat) (v : I
     (step s (.writeSlot src i v)).1.mem.blocks = s.mem.blocks ∧
     (step s (.writeSlot src i v)).1.slots = s.slots := by
   rcases hty with hty | hty <;> simp [step, hs, hk, hty, hi, hu, panicked, Mem.emit]
+
+/-- **over histories**: the header of an uninitialised handle, and after `assume_init` every element,
+is destroyed at most once — no value is ever destroyed twice along any history, whatever subset of
+slots was written and wherever the handle was dropped -/
+theorem C15_destroyed_at_most_once (ops : List Op) (h : FreshIds ops) : (dropIds (run ops).mem.log).Nodup :=
+  drop_at_most_once ops h
+
+/-- a written slot that is never assumed initialised is simply forgotten: what a still-live block
+stores (e.g. after other handles dropped through uninitialised views) has not been destroyed -/
+theorem C15_written_not_destroyed_while_live (ops : List Op) (h : FreshIds ops) (b : Nat) (k : Block)
+    (hk : (run ops).mem.blocks[b]? = some k) (hl : k.live = true) :
+    ∀ i, i ∈ k.ids → i ∉ dropIds (run ops).mem.log :=
+  live_values_not_destroyed ops h b k hk hl
+
+/-- `assume_init` over histories: allocation, contents and count are untouched (the op changes only
+the slot's type tag) and the count still equals the number of owners afterwards -/
+theorem C15_assume_init_over_histories (ops : List Op) (src : Nat) (h h' : HV)
+    (hs : lookup (run ops) src = some h) (hc : runConv (run ops).mem h .assumeInit = some h') :
+    (step (run ops) (.conv src .assumeInit)).1.mem = (run ops).mem ∧ h'.blk = h.blk ∧
+    Inv (step (run ops) (.conv src .assumeInit)).1 :=
+  ⟨C15_step_assume_init _ src h h' hs hc, (C15_assume_init_is_cast _ h h' hc).1, inv_step _ _ (inv_run ops)⟩
 
 end C15
 end M1
